@@ -449,8 +449,21 @@ enum Fam {
     ZipVec,
     FutGroup,
     StreamGroup,
+    /// join((join([f0, f1]), join(vec![f2]), f3)) — sub-wakers of an inner combinator forward into sub-wakers of the outer one
+    JoinNest,
+    /// merge((merge([s0, s1]), merge(vec![s2, s3])))
+    MergeNest,
+    /// FutureGroup of two array joins
+    GroupOfJoins,
+    /// StreamGroup of two array merges
+    GroupOfMerges,
+    /// zip([merge([s0, s1]), merge(vec![s2, s3])]) — an inner stream held back by the zip while producers keep firing
+    ZipOfMerges,
+    /// keyed groups: a member is removed between polls while its producer may be firing its waker
+    FutGroupRemove,
+    StreamGroupRemove,
 }
-const FAMS: [Fam; 12] = [
+const FAMS: [Fam; 19] = [
     Fam::JoinArr3,
     Fam::JoinVec,
     Fam::JoinTup3,
@@ -463,6 +476,13 @@ const FAMS: [Fam; 12] = [
     Fam::ZipVec,
     Fam::FutGroup,
     Fam::StreamGroup,
+    Fam::JoinNest,
+    Fam::MergeNest,
+    Fam::GroupOfJoins,
+    Fam::GroupOfMerges,
+    Fam::ZipOfMerges,
+    Fam::FutGroupRemove,
+    Fam::StreamGroupRemove,
 ];
 impl Fam {
     fn name(self) -> &'static str {
@@ -479,18 +499,38 @@ impl Fam {
             Fam::ZipVec => "zip/vec",
             Fam::FutGroup => "FutureGroup",
             Fam::StreamGroup => "StreamGroup",
+            Fam::JoinNest => "join(join,join,leaf)",
+            Fam::MergeNest => "merge(merge,merge)",
+            Fam::GroupOfJoins => "FutureGroup<join>",
+            Fam::GroupOfMerges => "StreamGroup<merge>",
+            Fam::ZipOfMerges => "zip(merge,merge)",
+            Fam::FutGroupRemove => "FutureGroup+remove",
+            Fam::StreamGroupRemove => "StreamGroup+remove",
         }
     }
     fn from_name(s: &str) -> Option<Fam> {
         FAMS.iter().copied().find(|f| f.name() == s)
     }
     fn is_stream_children(self) -> bool {
-        matches!(self, Fam::MergeArr3 | Fam::MergeVec | Fam::MergeTup2 | Fam::ZipArr2 | Fam::ZipVec | Fam::StreamGroup)
+        matches!(
+            self,
+            Fam::MergeArr3
+                | Fam::MergeVec
+                | Fam::MergeTup2
+                | Fam::ZipArr2
+                | Fam::ZipVec
+                | Fam::StreamGroup
+                | Fam::MergeNest
+                | Fam::GroupOfMerges
+                | Fam::ZipOfMerges
+                | Fam::StreamGroupRemove
+        )
     }
     fn fixed_n(self) -> Option<usize> {
         match self {
             Fam::JoinArr3 | Fam::JoinTup3 | Fam::TryJoinArr3 | Fam::MergeArr3 => Some(3),
             Fam::MergeTup2 | Fam::ZipArr2 => Some(2),
+            Fam::JoinNest | Fam::MergeNest | Fam::GroupOfJoins | Fam::GroupOfMerges | Fam::ZipOfMerges => Some(4),
             _ => None,
         }
     }
@@ -646,8 +686,151 @@ fn scenario(fam: Fam, prop_c02: bool, stats: Option<&Stats>) {
                     oracle(rows.len() == shortest, "c09.mt_len", || format!("zip yielded {} rows, shortest input has {shortest}", rows.len()));
                 }
             } else {
-                check_stream_items("c08", &yielded, &plans[..n], done);
+                check_stream_items("c08", &yielded, &plans[..n], done, None);
             }
+        }
+        Fam::JoinNest => {
+            let inner_a = Join::join([OkFut(mkf(0)), OkFut(mkf(1))]);
+            let inner_b = Join::join(vec![OkFut(mkf(2))]);
+            let r = poller.drive_future(Join::join((inner_a, inner_b, OkFut(mkf(3)))));
+            match r {
+                Some((a, b, c)) => {
+                    oracle(
+                        a[0].id == vid(0, 0) && a[1].id == vid(1, 0) && b.len() == 1 && b[0].id == vid(2, 0) && c.id == vid(3, 0),
+                        "c04.mt_pos",
+                        || format!("nested join output ({a:?},{b:?},{c:?})"),
+                    );
+                }
+                None => completed = false,
+            }
+        }
+        Fam::MergeNest => {
+            let inner_a = Merge::merge([mks(0), mks(1)]);
+            let inner_b = Merge::merge(vec![mks(2), mks(3)]);
+            let mut s = Merge::merge((inner_a, inner_b));
+            let done = poller.drive_stream(&mut s, |_, v| yielded.push(v.id));
+            completed = done;
+            check_stream_items("c08", &yielded, &plans[..n], done, None);
+        }
+        Fam::ZipOfMerges => {
+            let inner_a = Merge::merge([mks(0), mks(1)]);
+            let inner_b = Merge::merge(vec![mks(2), mks(3)]);
+            let mut s = Box::pin(Zip::zip((inner_a, inner_b)));
+            let mut rows = 0usize;
+            let (mut left, mut right) = (Vec::new(), Vec::new());
+            let done = poller.drive_stream(&mut s, |_, (l, r)| {
+                rows += 1;
+                left.push(l.id);
+                right.push(r.id);
+            });
+            completed = done;
+            for &v in &left {
+                oracle(v / 8 < 2, "c09.mt_row", || format!("left field of a row holds v{v}, an item of the right input"));
+            }
+            for &v in &right {
+                oracle((2..4).contains(&(v / 8)), "c09.mt_row", || format!("right field of a row holds v{v}, an item of the left input"));
+            }
+            // per-child order / exactly-once inside each side (rows consume a prefix of each merged side)
+            let all: Vec<u32> = left.iter().chain(right.iter()).copied().collect();
+            check_stream_items("c09", &all, &plans[..n], false, None);
+            if done {
+                let shortest = (plans[0].items + plans[1].items).min(plans[2].items + plans[3].items);
+                oracle(rows == shortest, "c09.mt_len", || format!("zip(merge,merge) yielded {rows} rows, shortest side has {shortest} items"));
+            }
+        }
+        Fam::GroupOfJoins => {
+            let mut g = FutureGroup::new();
+            g.insert(Join::join([OkFut(mkf(0)), OkFut(mkf(1))]));
+            g.insert(Join::join([OkFut(mkf(2)), OkFut(mkf(3))]));
+            let mut g = Box::pin(g);
+            let mut seen = Vec::new();
+            let done = poller.drive_stream(&mut g, |_, out| {
+                oracle(out[0].id % 8 == 0 && out[1].id == out[0].id + 8 && (out[0].id / 8) % 2 == 0, "c04.mt_pos", || {
+                    format!("FutureGroup<join> yielded [{:?},{:?}]", out[0], out[1])
+                });
+                seen.push(out[0].id / 8);
+            });
+            completed = done;
+            if done {
+                seen.sort_unstable();
+                oracle(seen == vec![0, 2], "c11.mt_items", || format!("FutureGroup<join> yielded the joins starting at children {seen:?}, expected [0, 2]"));
+            }
+            drop(g);
+        }
+        Fam::GroupOfMerges => {
+            let mut g = StreamGroup::new();
+            g.insert(Merge::merge([mks(0), mks(1)]));
+            g.insert(Merge::merge([mks(2), mks(3)]));
+            let mut g = Box::pin(g);
+            let done = poller.drive_stream(&mut g, |_, v| yielded.push(v.id));
+            completed = done;
+            check_stream_items("c12", &yielded, &plans[..n], done, None);
+            drop(g);
+        }
+        Fam::FutGroupRemove => {
+            let mut g = FutureGroup::new();
+            let keys: Vec<_> = (0..n).map(|c| g.insert(OkFut(mkf(c)))).collect();
+            let victim = rng.gen_range(0..n);
+            let after = rng.gen_range(0u32..2);
+            let mut removed: Option<bool> = None;
+            if after == 0 {
+                removed = Some(g.remove(keys[victim]));
+            }
+            let mut g = g.keyed();
+            let mut got: Vec<(usize, u32)> = Vec::new();
+            let mut key_of = Vec::new();
+            let done = poller.drive_stream(&mut g, |g, (k, v)| {
+                key_of.push(k);
+                got.push((got.len(), v.id));
+                if removed.is_none() {
+                    removed = Some(g.remove(keys[victim]));
+                }
+            });
+            completed = done;
+            for (i, (_, v)) in got.iter().enumerate() {
+                let c = (*v / 8) as usize;
+                oracle(c < n && key_of[i] == keys[c], "c11.mt_key", || format!("FutureGroup yielded v{v} with the key of another member"));
+            }
+            let victim_yielded = got.iter().any(|(_, v)| (*v / 8) as usize == victim);
+            if let Some(r) = removed {
+                oracle(r != victim_yielded, "c11.mt_remove", || {
+                    format!("remove(victim) returned {r} but the victim's output was {}yielded", if victim_yielded { "" } else { "not " })
+                });
+            }
+            if done {
+                let mut ids: Vec<u32> = got.iter().map(|(_, v)| *v).collect();
+                ids.sort_unstable();
+                let want: Vec<u32> = (0..n).filter(|&c| c != victim || victim_yielded).map(|c| vid(c, 0)).collect();
+                oracle(ids == want, "c11.mt_items", || format!("FutureGroup yielded {ids:?}, expected {want:?} (victim {victim}, removed {removed:?})"));
+            }
+            drop(g);
+        }
+        Fam::StreamGroupRemove => {
+            let mut g = StreamGroup::new();
+            let keys: Vec<_> = (0..n).map(|c| g.insert(mks(c))).collect();
+            let victim = rng.gen_range(0..n);
+            let mut removed: Option<bool> = None;
+            if rng.gen_range(0u32..2) == 0 {
+                removed = Some(g.remove(keys[victim]));
+            }
+            let mut g = g.keyed();
+            let mut victim_after_remove = false;
+            let done = poller.drive_stream(&mut g, |g, (k, v)| {
+                let c = (v.id / 8) as usize;
+                oracle(c < n && k == keys[c], "c12.mt_key", || format!("StreamGroup yielded v{} with the key of another member", v.id));
+                if removed == Some(true) && c == victim {
+                    victim_after_remove = true;
+                }
+                yielded.push(v.id);
+                if removed.is_none() {
+                    removed = Some(g.remove(keys[victim]));
+                }
+            });
+            completed = done;
+            oracle(!victim_after_remove, "c12.mt_remove", || format!("an item of member {victim} was yielded after remove() returned true"));
+            let exempt = if removed == Some(true) { Some(victim) } else { None };
+            check_stream_items("c12", &yielded, &plans[..n], done, exempt);
+            drop(g);
         }
         Fam::FutGroup => {
             let mut g = FutureGroup::new();
@@ -690,7 +873,7 @@ fn scenario(fam: Fam, prop_c02: bool, stats: Option<&Stats>) {
                 }
             });
             completed = done;
-            check_stream_items("c12", &yielded, &plans[..inserted], done);
+            check_stream_items("c12", &yielded, &plans[..inserted], done, None);
             drop(g);
             finish(fam, &acct, handles, inserted, stats, completed, cancel_at.is_some());
             return;
@@ -728,7 +911,7 @@ fn producer_with_ids(chans: Vec<(Sh, ChildPlan, bool)>, idx: Vec<usize>, acct: A
     }
 }
 
-fn check_stream_items(prefix: &str, yielded: &[u32], plans: &[ChildPlan], done: bool) {
+fn check_stream_items(prefix: &str, yielded: &[u32], plans: &[ChildPlan], done: bool, exempt: Option<usize>) {
     // per-child order and exactly-once
     let mut next = vec![0usize; plans.len()];
     for &v in yielded {
@@ -741,7 +924,7 @@ fn check_stream_items(prefix: &str, yielded: &[u32], plans: &[ChildPlan], done: 
     }
     if done {
         for (c, p) in plans.iter().enumerate() {
-            oracle(next[c] == p.items, &format!("{prefix}.mt_items"), || {
+            oracle(next[c] == p.items || exempt == Some(c), &format!("{prefix}.mt_items"), || {
                 format!("stream ended but child {c} delivered {} of its {} items", next[c], p.items)
             });
         }
@@ -881,7 +1064,11 @@ fn cmd_check(a: &BTreeMap<String, String>) -> i32 {
     const BATCH: u64 = 250;
     let per_fam = (iters / FAMS.len() as u64).max(BATCH);
     let mut work: Vec<(Fam, &'static str, u64, u64)> = Vec::new();
+    let only_fam = a.get("only-fam").cloned();
     for (fi, fam) in FAMS.iter().enumerate() {
+        if only_fam.as_ref().map_or(false, |o| !fam.name().contains(o.as_str())) {
+            continue;
+        }
         let mut done = 0;
         let mut b = 0u64;
         while done < per_fam {
